@@ -16,12 +16,14 @@ func init() {
 			ID: "C22", Title: "OPEN negotiation admits only valid sessions and negotiates correctly", Level: "other",
 			Technique:   "emitter-table agreement for the OPEN error subcodes (reachability over static calls), truth tables of the extracted guards (role pairs RFC 9234 §4.2, 400 valuations), control-dependence of every capability-enabling store on the peer's capability and the local setting, enum-domain flow of the role code",
 			DesignRef:   "DESIGN.md §4 C22",
-			Decided:     "(0) every range loop over the OPEN's optional parameters and over capability lists in package server runs to the end (no return/break): capabilities in a second Capabilities parameter are processed too; (1) each OPEN error subcode the statement requires (Unsupported Version Number, Bad Peer AS, Bad BGP Identifier, Unacceptable Hold Time, Role Mismatch) has an emitting site reachable from openSentState.msgReceived, and validateOpen rejects exactly version ≠ 4, identifier 0 and hold time 1..2 (table over 60 valuations); (2) the bad-identifier rejection is guarded by `iBGP ∧ identifier = ours`; the peer AS compared with the configuration is the OPEN's 2-octet AS replaced by the 4-octet capability value exactly when it is AS_TRANS, and the capabilities are processed before the comparison; validatePeerRole agrees with RFC 9234 §4.2 (the three allowed unordered pairs, strict mode, conflicting roles) on all 400 valuations; (3) every rejection goes through a NOTIFICATION and closes the connection (C23 decides the close); (4) add-path receive/send, multiprotocol and 4-octet-ASN behaviour are switched on only under the peer's capability AND the local setting (each enabling store is control-dependent on both), the negotiated hold time is computed by min() of both offers; (5) the role sent in the capability and the role kept for validation come from translatePeerRole, whose cases map each configuration role to the RFC code of the same name.",
+			Decided:     "(00) every field of the FSM, its address families, the peer and the state object that the processing of the peer's optional parameters can write is reset on every path of the OPEN handler before they are processed: negotiation results do not survive a session; (0) every range loop over the OPEN's optional parameters and over capability lists in package server runs to the end (no return/break): capabilities in a second Capabilities parameter are processed too; (1) each OPEN error subcode the statement requires (Unsupported Version Number, Bad Peer AS, Bad BGP Identifier, Unacceptable Hold Time, Role Mismatch) has an emitting site reachable from openSentState.msgReceived, and validateOpen rejects exactly version ≠ 4, identifier 0 and hold time 1..2 (table over 60 valuations); (2) the bad-identifier rejection is guarded by `iBGP ∧ identifier = ours`; the peer AS compared with the configuration is the OPEN's 2-octet AS replaced by the 4-octet capability value exactly when it is AS_TRANS, and the capabilities are processed before the comparison; validatePeerRole agrees with RFC 9234 §4.2 (the three allowed unordered pairs, strict mode, conflicting roles) on all 400 valuations; (3) every rejection goes through a NOTIFICATION and closes the connection (C23 decides the close); (4) add-path receive/send, multiprotocol and 4-octet-ASN behaviour are switched on only under the peer's capability AND the local setting (each enabling store is control-dependent on both), the negotiated hold time is computed by min() of both offers; (5) the role sent in the capability and the role kept for validation come from translatePeerRole, whose cases map each configuration role to the RFC code of the same name.",
 			NotDecided:  "the value of min(local, peer) hold time as arithmetic (the call shape is checked, not the result); capability byte layout (C16/C17).",
 			TrustedBase: append([]string{"the RFC 9234 §4.2 role-pair table and RFC 4271 §4.2/§6.2 OPEN rules transcribed in engine/props/c22.go"}, stdTrusted...),
 		},
 		Run: runC22,
 		Controls: []Control{
+			{Name: "four-octet-flag-survives-the-session", File: "protocols/bgp/server/fsm_open_sent.go", Old: "\ts.fsm.supports4OctetASN = false\n", New: "", Expect: "negotiated-state-reset-per-session"},
+			{Name: "role-remembered-across-sessions", File: "protocols/bgp/server/fsm_open_sent.go", Old: "\ts.fsm.peer.peerRoleAdvByPeer = false\n", New: "", Expect: "negotiated-state-reset-per-session"},
 			{Name: "only-first-capabilities-parameter", File: "protocols/bgp/server/fsm_open_sent.go", Old: "\t\ts.processCapabilities(optParam.Value.(packet.Capabilities))\n", New: "\t\ts.processCapabilities(optParam.Value.(packet.Capabilities))\n\t\treturn\n", Expect: "capability-walk-is-complete"},
 			{Name: "hold-time-two-accepted", File: "protocols/bgp/packet/decoder.go", Old: "if msg.HoldTime > 0 && msg.HoldTime < 3 {", New: "if msg.HoldTime > 0 && msg.HoldTime < 2 {", Expect: "open-validation-table"},
 			{Name: "role-pair-customer-customer", File: "protocols/bgp/server/fsm_open_sent.go", Old: "(localRole == packet.PeerRoleRoleCustomer && remoteRole == packet.PeerRoleRoleProvider) {", New: "(localRole == packet.PeerRoleRoleCustomer && remoteRole == packet.PeerRoleRoleCustomer) {", Expect: "role-pair-table"},
@@ -34,6 +36,7 @@ func init() {
 
 func runC22(c *core.Ctx) {
 	capabilityWalkComplete(c, "capability-walk-is-complete", 4)
+	negotiationIsPerSession(c)
 	p := c.P
 	const pkt = "protocols/bgp/packet"
 	entry := c.MustFunc(srv + ".(*openSentState).msgReceived")
